@@ -1115,4 +1115,194 @@ def closureGlyphs (g : GsubT) (glyphs : G16) : Option (CR G16) :=
     | some (.err e) => some (.err e)
     | some .trap => some .trap
 
+/-! ## `collect_features` (read-fonts/src/tables/layout/closure.rs, gsub/closure.rs, gpos/closure.rs)
+
+`IntSet<Tag>` arguments: `inv = false` — the ascending member list; `inv = true` (`is_inverted()`, e.g.
+`IntSet::all()` with some tags removed) — the excluded tags. -/
+
+structure TagSet where
+  inv : Bool
+  xs : List Nat
+  deriving Repr, DecidableEq
+
+def TagSet.contains (s : TagSet) (t : Nat) : Bool := s.inv != s.xs.contains t
+
+/-- a `LangSys` table: its position (the key of `visited_langsys`), `required_feature_index`,
+`feature_indices` -/
+structure LangSysT where
+  pos : Nat
+  required : Nat
+  features : List Nat
+  deriving Repr, DecidableEq
+
+/-- a `Script` table: position, `default_lang_sys()` (nullable), `(tag, rec.lang_sys(data))` records -/
+structure ScriptT where
+  pos : Nat
+  dflt : Option (PR LangSysT)
+  langs : List (Nat × PR LangSysT)
+  deriving Repr
+
+def langSysAt (d : List Nat) (q : Nat) : PR LangSysT := do
+  let n ← rd16 d (q + 4)
+  need d q (6 + 2 * n)
+  pure ⟨q, beAt d (q + 2) 2, u16sAt d (q + 6) n⟩
+
+def scriptAt (d : List Nat) (q : Nat) : PR ScriptT := do
+  let n ← rd16 d (q + 2)
+  need d q (4 + 6 * n)
+  let off : Nat := HandRead.beAt d q 2
+  pure ⟨q, if off = 0 then none else some (resolveAt d q off >>= langSysAt d),
+    (List.range n).map (fun i => (beAt d (q + 4 + 6 * i) 4, resolveAt d q (beAt d (q + 4 + 6 * i + 4) 2) >>= langSysAt d))⟩
+
+/-- `Gsub::collect_features` / `Gpos::collect_features` up to the call of
+`ScriptList::collect_features`: `feature_list()?` (only the record tags are used), `script_list()?`
+(`(tag, rec.script(data))` records) -/
+def collectRead (d : List Nat) : PR (List Nat × List (Nat × PR ScriptT)) := do
+  let fl ← resolveAt d 0 (beAt d 6 2)
+  let nf ← rd16 d fl
+  need d fl (2 + 6 * nf)
+  let sl ← resolveAt d 0 (beAt d 4 2)
+  let ns ← rd16 d sl
+  need d sl (2 + 6 * ns)
+  pure ((List.range nf).map (fun i => beAt d (fl + 2 + 6 * i) 4),
+    (List.range ns).map (fun i => (beAt d (sl + 2 + 6 * i) 4, resolveAt d sl (beAt d (sl + 2 + 6 * i + 4) 2) >>= scriptAt d)))
+
+/-- `CollectFeaturesContext` (`table_head` is the parameter `head` of the functions below) -/
+structure CF where
+  scriptCount : Nat
+  langsysCount : Nat
+  featureIndexCount : Nat
+  visitedScript : List Nat
+  visitedLangsys : List Nat
+  /-- `feature_indices` (the result), ascending -/
+  out : List Nat
+  /-- `feature_indices_filter` -/
+  filter : List Nat
+  deriving Repr, DecidableEq
+
+/-- `u16` `+= 1` of the overflow-checked profile -/
+def inc16 (a : Nat) : Res Nat := if a + 1 < 65536 then .val (a + 1) else .trap
+
+/-- `script_visited` / `langsys_visited` on `(count, visited)` with limit `max`: over the limit →
+`true`; `count += 1`; `delta = (ptr - table_head) as u32`; `!visited.insert(delta)` -/
+def visitedStep (count : Nat) (visited : List Nat) (max head addr : Nat) : Res (Bool × Nat × List Nat) :=
+  if count > max then .val (true, count, visited)
+  else
+    (inc16 count).bind (fun n =>
+      (subTrap addr head).bind (fun delta =>
+        let k := delta % 4294967296
+        .val (visited.contains k, n, if visited.contains k then visited else k :: visited)))
+
+/-- `feature_indices_limit_exceeded(count)`: `overflowing_add`; on overflow the counter becomes the
+limit; `MAX_FEATURE_INDICES = 1500` -/
+def limitExceeded (c : CF) (count : Nat) : Bool × CF :=
+  let s := c.featureIndexCount + count
+  if s ≥ 65536 then (true, { c with featureIndexCount := 1500 })
+  else (decide (s > 1500), { c with featureIndexCount := s })
+
+/-- the `for feature_index in self.feature_indices()` loop of `LangSys::collect_features` -/
+def langFeatures (c : CF) : List Nat → CF
+  | [] => c
+  | idx :: rest =>
+    if c.filter.contains idx then
+      langFeatures { c with out := insertUniq idx c.out, filter := c.filter.filter (· != idx) } rest
+    else langFeatures c rest
+
+/-- `if required != 0xFFFF && !c.feature_indices_limit_exceeded(1) && filter.contains(required) { insert }`
+(short circuit: the limit counter moves only for a real required feature) -/
+def requiredStep (c : CF) (required : Nat) : CF :=
+  if required ≠ 65535 then
+    let l := limitExceeded c 1
+    if !l.1 && l.2.filter.contains required then { l.2 with out := insertUniq required l.2.out } else l.2
+  else c
+
+/-- the part of `LangSys::collect_features(c)` behind the visited / empty-filter checks -/
+def langSysBody (c : CF) (ls : LangSysT) : CF :=
+  let l2 := limitExceeded (requiredStep c ls.required) ls.features.length
+  if l2.1 then l2.2 else langFeatures l2.2 ls.features
+
+/-- `LangSys::collect_features(c)` -/
+def langSysCollect (head : Nat) (c : CF) (ls : LangSysT) : Res CF :=
+  (visitedStep c.langsysCount c.visitedLangsys 2000 head (head + ls.pos)).bind (fun r =>
+    let c1 := { c with langsysCount := r.2.1, visitedLangsys := r.2.2 }
+    if r.1 then .val c1
+    else if c1.filter.isEmpty then .val c1
+    else .val (langSysBody c1 ls))
+
+/-- a `Result<(), ReadError>` step that may panic -/
+abbrev RR (α : Type) := Res (PR α)
+
+/-- the record loop of `Script::collect_features` for an inverted language set -/
+def scriptLangsInv (head : Nat) (languages : TagSet) : CF → List (Nat × PR LangSysT) → RR CF
+  | c, [] => .val (.ok c)
+  | c, (tag, r) :: rest =>
+    if !languages.contains tag then scriptLangsInv head languages c rest
+    else match r with
+      | .error e => .val (.error e)
+      | .ok ls => (langSysCollect head c ls).bind (fun c' => scriptLangsInv head languages c' rest)
+
+/-- … and for a plain set: `languages.iter().filter_map(|tag| self.lang_sys_index_for_tag(tag))`, then
+`lang_sys_records[idx as usize]` (index panic) -/
+def scriptLangsSel (head : Nat) (recs : List (Nat × PR LangSysT)) : CF → List Nat → RR CF
+  | c, [] => .val (.ok c)
+  | c, tag :: rest =>
+    match indexForTag (recs.map (·.1)) tag with
+    | none => scriptLangsSel head recs c rest
+    | some idx =>
+      match recs[idx]? with
+      | none => .trap
+      | some (_, .error e) => .val (.error e)
+      | some (_, .ok ls) => (langSysCollect head c ls).bind (fun c' => scriptLangsSel head recs c' rest)
+
+/-- `Script::collect_features(c, languages)` -/
+def scriptCollect (head : Nat) (languages : TagSet) (c : CF) (s : ScriptT) : RR CF :=
+  (visitedStep c.scriptCount c.visitedScript 500 head (head + s.pos)).bind (fun r =>
+    let c1 := { c with scriptCount := r.2.1, visitedScript := r.2.2 }
+    if r.1 then .val (.ok c1)
+    else
+      -- `self.default_lang_sys().transpose()?`
+      let afterDflt : RR CF := match s.dflt with
+        | none => .val (.ok c1)
+        | some (.error e) => .val (.error e)
+        | some (.ok ls) => (langSysCollect head c1 ls).bind (fun c' => .val (.ok c'))
+      afterDflt.bind (fun r2 => match r2 with
+        | .error e => .val (.error e)
+        | .ok c2 =>
+          if languages.inv then scriptLangsInv head languages c2 s.langs
+          else scriptLangsSel head s.langs c2 languages.xs))
+
+def scriptsInv (head : Nat) (scripts languages : TagSet) : CF → List (Nat × PR ScriptT) → RR CF
+  | c, [] => .val (.ok c)
+  | c, (tag, r) :: rest =>
+    if !scripts.contains tag then scriptsInv head scripts languages c rest
+    else match r with
+      | .error e => .val (.error e)
+      | .ok s => (scriptCollect head languages c s).bind (fun r2 => match r2 with
+          | .error e => .val (.error e)
+          | .ok c' => scriptsInv head scripts languages c' rest)
+
+def scriptsSel (head : Nat) (languages : TagSet) (recs : List (Nat × PR ScriptT)) : CF → List Nat → RR CF
+  | c, [] => .val (.ok c)
+  | c, tag :: rest =>
+    match indexForTag (recs.map (·.1)) tag with
+    | none => scriptsSel head languages recs c rest
+    | some idx =>
+      match recs[idx]? with
+      | none => .trap
+      | some (_, .error e) => .val (.error e)
+      | some (_, .ok s) => (scriptCollect head languages c s).bind (fun r2 => match r2 with
+          | .error e => .val (.error e)
+          | .ok c' => scriptsSel head languages recs c' rest)
+
+/-- `ScriptList::collect_features(head, feature_list, scripts, languages, features)` with
+`CollectFeaturesContext::new` (the filter: indices, `as u16`, of the features whose tag is wanted) -/
+def collectFeatures (head : Nat) (featureTags : List Nat) (recs : List (Nat × PR ScriptT))
+    (scripts languages features : TagSet) : RR (List Nat) :=
+  let filter := ((List.range featureTags.length).zip featureTags).filterMap (fun p =>
+    if features.contains p.2 then some (p.1 % 65536) else none)
+  let c0 : CF := ⟨0, 0, 0, [], [], [], filter.foldl (fun s x => insertUniq x s) []⟩
+  let r := if scripts.inv then scriptsInv head scripts languages c0 recs
+           else scriptsSel head languages recs c0 scripts.xs
+  r.bind (fun x => .val (x.map (·.out)))
+
 end FontVerif.HandLayout
